@@ -1,5 +1,11 @@
-(** Executable entry point of the C12 model for the correspondence driver:
-    a scripted server against N concurrent calls. *)
+(** Executable entry points of the C12 model for the correspondence driver.
+    c12.script : a synchronised script (every packet is processed before the next
+                 operation); the model predicts each call's result and the registry sizes.
+    c12.race   : all packets written at once on several connections; the observed
+                 results are accepted iff some order of the readers' steps produces them.
+    c12.seq    : an observed history of sequential calls, connection drops and
+                 reconnects; accepted iff the model can perform it.
+    Acceptance always goes through [step]: an accepted history is a trace of the model. *)
 From Coq Require Import List NArith ZArith String Bool.
 From Tongo Require Import Lib.Bits Lib.Sx Model.Client.
 Import ListNotations.
@@ -11,80 +17,330 @@ Definition qid (i : nat) : N := (1 + N.of_nat i)%N.
 Definition unknown_id (d : N) : N := (1000000 + d)%N.
 
 (* one server emission: connection and packet *)
-Definition emission (o : sx) : option (nat * packet) :=
-  match o with
-  | SL (SA nm :: SN k :: args) =>
-      let is x := String.eqb nm x in
-      match args with
-      | [SN i; SN d] => if is "ans" then Some (small k, PAnswer (qid (small i)) d) else None
-      | [SN a] =>
-          if is "unk" then Some (small k, PAnswer (unknown_id a) a)
-          else if is "mal" then Some (small k, PMalformed (qid (small a)))
-          else None
-      | [] =>
-          if is "pong" then Some (small k, PPong)
-          else if is "junk" then Some (small k, PJunk)
-          else if is "short" then Some (small k, PJunk)
-          else None
-      | _ => None
-      end
+Definition emission (nm : string) (args : list sx) : option (nat * packet) :=
+  let is x := String.eqb nm x in
+  match args with
+  | [SN k; SN i; SN d] =>
+      if is "ans" then Some (small k, PAnswer (qid (small i)) d)
+      else if is "mal" then Some (small k, PMalformed (qid (small i)))
+      else if is "wrong" then Some (small k, PJunk)      (* a well-formed answer under another magic *)
+      else None
+  | [SN k; SN a] =>
+      if is "unk" then Some (small k, PAnswer (unknown_id a) a)
+      else if is "short" then Some (small k, PJunk)      (* answer magic + id only: 36 bytes *)
+      else if is "pong" then Some (small k, PPong)
+      else if is "junk" then Some (small k, PJunk)
+      else None
+  | [SN k] => if is "nonce" then Some (small k, PPong) else None
   | _ => None
   end.
 
-Fixpoint labels_of (ems : list sx) : option (list label) :=
-  match ems with
-  | [] => Some []
-  | o :: t =>
-      match emission o, labels_of t with
-      | Some (k, p), Some ls => Some (LEmit k p :: LDeliver k :: ls)
-      | _, _ => None
+Definition out_result (r : call_pc) : sx :=
+  match r with
+  | CInit => SA "notstarted"
+  | CReturned (ROk d) => SL [SA "ok"; SN d]
+  | CReturned RTimeout => SA "expired"
+  | CReturned RSendErr => SA "err"
+  | _ => sx_err "not returned"
+  end.
+
+(* a waiting call takes the receive branch if its channel holds data, else its deadline expires *)
+Definition finish_call (nconn : nat) (s : state) (i : nat) : option state :=
+  match pc s i with
+  | CSent => exec nconn qid s [match ch s i with Some _ => LRecv i | None => LTimeout i end; LUnregister i]
+  | _ => Some s
+  end.
+
+Fixpoint finish_all (nconn n : nat) (s : state) (i : nat) : option state :=
+  match n with
+  | O => Some s
+  | S n' => match finish_call nconn s i with
+            | Some s' => finish_all nconn n' s' (S i)
+            | None => None
+            end
+  end.
+
+Definition outcomes (ncalls : nat) (s : state) : sx :=
+  SL (map (fun i => out_result (pc s i)) (seq 0 ncalls)).
+
+(** ---- c12.script ---- *)
+
+Fixpoint interp (nconn ncalls : nat) (ops : list sx) (s : state) (regs : list sx) : option (state * list sx) :=
+  match ops with
+  | [] => Some (s, rev regs)
+  | SL (SA nm :: args) :: t =>
+      let is x := String.eqb nm x in
+      if is "start" then
+        match args with
+        | [SN i] => match exec nconn qid s [LRegister (small i); LPick (small i); LSendOk (small i)] with
+                    | Some s' => interp nconn ncalls t s' regs
+                    | None => None
+                    end
+        | _ => None
+        end
+      else if is "finish" then
+        match finish_all nconn ncalls s 0 with
+        | Some s' => interp nconn ncalls t s' regs
+        | None => None
+        end
+      else if is "reg" then interp nconn ncalls t s (sx_nat (List.length (reg s)) :: regs)
+      else if is "drop" then
+        match args with
+        | SN k :: _ => match step nconn qid s (LDrop (small k)) with
+                       | Some s' => interp nconn ncalls t s' regs
+                       | None => None
+                       end
+        | _ => None
+        end
+      else
+        match emission nm args with
+        | Some (k, p) => match exec nconn qid s [LEmit k p; LDeliver k] with
+                         | Some s' => interp nconn ncalls t s' regs
+                         | None => None
+                         end
+        | None => None
+        end
+  | _ => None
+  end.
+
+(* (nconn ncalls (op ...)) -> ((result per call) (registry size per 'reg)) *)
+Definition run_script (a : sx) : sx :=
+  match a with
+  | SL [SN nc; SN n; SL ops] =>
+      let nconn := small nc in
+      let ncalls := small n in
+      match interp nconn ncalls ops init_state [] with
+      | None => sx_err "script blocked"
+      | Some (s, regs) => SL [outcomes ncalls s; SL regs]
       end
+  | _ => sx_err "script"
+  end.
+
+(** ---- c12.race ---- *)
+
+Inductive obs := OOk (d : N) | OExpired | OErr.
+
+Definition parse_obs (o : sx) : option obs :=
+  match o with
+  | SL [SA nm; SN d] => if String.eqb nm "ok" then Some (OOk d) else None
+  | SA nm => if String.eqb nm "expired" then Some OExpired
+             else if String.eqb nm "err" then Some OErr else None
+  | _ => None
+  end.
+
+Fixpoint parse_all {A} (f : sx -> option A) (l : list sx) : option (list A) :=
+  match l with
+  | [] => Some []
+  | x :: t => match f x, parse_all f t with
+              | Some a, Some r => Some (a :: r)
+              | _, _ => None
+              end
+  end.
+
+Definition parse_emission (o : sx) : option (nat * packet) :=
+  match o with
+  | SL (SA nm :: args) => emission nm args
+  | _ => None
+  end.
+
+(* may the reader of a connection process this packet now, given the observed results? *)
+Definition safe_head (s : state) (ob : list obs) (p : packet) : bool :=
+  match p with
+  | PPong | PJunk => true
+  | PAnswer id d =>
+      match lookup id (reg s) with
+      | None => true
+      | Some i => match nth_error ob i with
+                  | Some (OOk d') => N.eqb d d'
+                  | _ => false
+                  end
+      end
+  | PMalformed id =>
+      match lookup id (reg s) with
+      | None => true
+      | Some i => match nth_error ob i with
+                  | Some OExpired => true
+                  | _ => false
+                  end
+      end
+  end.
+
+Fixpoint find_safe (s : state) (ob : list obs) (ks : list nat) : option nat :=
+  match ks with
+  | [] => None
+  | k :: t => match wire s k with
+              | p :: _ => if safe_head s ob p then Some k else find_safe s ob t
+              | [] => find_safe s ob t
+              end
+  end.
+
+Definition wires_empty (s : state) (ks : list nat) : bool :=
+  forallb (fun k => match wire s k with [] => true | _ => false end) ks.
+
+(* deliver safe heads until every wire is empty; delivering a safe head never
+   disables another one, so the greedy order loses no witness *)
+Fixpoint schedule (fuel : nat) (nconn : nat) (s : state) (ob : list obs) : option state :=
+  if wires_empty s (seq 0 nconn) then Some s else
+  match fuel with
+  | O => None
+  | S f => match find_safe s ob (seq 0 nconn) with
+           | None => None
+           | Some k => match step nconn qid s (LDeliver k) with
+                       | Some s' => schedule f nconn s' ob
+                       | None => None
+                       end
+           end
   end.
 
 Definition start_calls (n : nat) : list label :=
   flat_map (fun i => [LRegister i; LPick i; LSendOk i]) (seq 0 n).
 
-Definition out_result (r : call_pc) : sx :=
-  match r with
-  | CReturned (ROk d) => SL [SA "ok"; SN d]
-  | CReturned RTimeout => SA "timeout"
-  | CReturned RSendErr => SA "err"
-  | _ => sx_err "not returned"
+Definition obs_sx (o : obs) : sx :=
+  match o with OOk d => SL [SA "ok"; SN d] | OExpired => SA "expired" | OErr => SA "err" end.
+
+Definition sx_eqb_outcome (a b : sx) : bool :=
+  match a, b with
+  | SA x, SA y => String.eqb x y
+  | SL [SA x; SN d], SL [SA y; SN e] => String.eqb x y && N.eqb d e
+  | _, _ => false
   end.
 
-(* every call takes the receive branch if its channel holds data, else times out *)
-Fixpoint finish_calls (nconn : nat) (n : nat) (s : state) (i : nat) : option state :=
-  match n with
-  | O => Some s
-  | S n' =>
-      let l := match ch s i with Some _ => LRecv i | None => LTimeout i end in
-      match run nconn qid s [l; LUnregister i] with
-      | Some s' => finish_calls nconn n' s' (S i)
-      | None => None
-      end
+Fixpoint all2 {A} (f : A -> A -> bool) (l1 l2 : list A) : bool :=
+  match l1, l2 with
+  | [], [] => true
+  | x :: t1, y :: t2 => f x y && all2 f t1 t2
+  | _, _ => false
   end.
 
-(* (nconn ncalls (emission ...)) -> ((result per call) registry-size) *)
-Definition run_script (a : sx) : sx :=
+(* (nconn ncalls (emission ...) (observed result ...)) -> ('accept registry-size) | ('reject reason) *)
+Definition run_race (a : sx) : sx :=
   match a with
-  | SL [SN nc; SN n; SL ems] =>
+  | SL [SN nc; SN n; SL ems; SL outs] =>
       let nconn := small nc in
       let ncalls := small n in
-      match labels_of ems with
-      | None => sx_err "script ops"
-      | Some ls =>
-          match run nconn qid init_state (start_calls ncalls ++ ls) with
-          | None => sx_err "script blocked"
+      match parse_all parse_emission ems, parse_all parse_obs outs with
+      | Some es, Some ob =>
+          match exec nconn qid init_state (start_calls ncalls ++ map (fun e => LEmit (fst e) (snd e)) es) with
+          | None => SL [SA "reject"; SA "emit"]
           | Some s1 =>
-              match finish_calls nconn ncalls s1 0 with
-              | None => sx_err "finish blocked"
-              | Some s2 => SL [SL (map (fun i => out_result (pc s2 i)) (seq 0 ncalls));
-                               sx_nat (List.length (reg s2))]
+              match schedule (List.length es) nconn s1 ob with
+              | None => SL [SA "reject"; SA "no-order-of-reader-steps-gives-these-results"]
+              | Some s2 =>
+                  match finish_all nconn ncalls s2 0 with
+                  | None => SL [SA "reject"; SA "finish"]
+                  | Some s3 =>
+                      if all2 sx_eqb_outcome (map (fun i => out_result (pc s3 i)) (seq 0 ncalls)) (map obs_sx ob)
+                      then SL [SA "accept"; sx_nat (List.length (reg s3))]
+                      else SL [SA "reject"; SA "results"]
+                  end
               end
           end
+      | _, _ => sx_err "race ops"
       end
-  | _ => sx_err "script"
+  | _ => sx_err "race"
+  end.
+
+(** ---- c12.seq ---- *)
+
+Definition is_picked (p : call_pc) (k : nat) : bool :=
+  match p with CPicked k' => Nat.eqb k k' | _ => false end.
+
+Definition picked_conn (p : call_pc) : option nat :=
+  match p with CPicked k => Some k | _ => None end.
+
+Definition event (nconn : nat) (s : state) (e : sx) : option state :=
+  match e with
+  | SL (SA nm :: args) =>
+      let is x := String.eqb nm x in
+      let go := exec nconn qid in
+      if is "recv" then
+        match args with
+        | [SN i; SN k] =>
+            let i := small i in
+            match pc s i with
+            | CInit =>
+                match go s [LRegister i; LPick i] with
+                | Some s1 => if is_picked (pc s1 i) (small k) && negb (broken s1 (small k))   (* the server read it *)
+                             then go s1 [LSendOk i] else None
+                | None => None
+                end
+            | _ => None
+            end
+        | _ => None
+        end
+      else if is "ret" then
+        match args with
+        | [SN i; o] =>
+            let i := small i in
+            match pc s i, parse_obs o with
+            | CSent, Some (OOk d) =>
+                match go s [LRecv i; LUnregister i] with
+                | Some s1 => match pc s1 i with
+                             | CReturned (ROk d') => if N.eqb d d' then Some s1 else None
+                             | _ => None
+                             end
+                | None => None
+                end
+            | CSent, Some OExpired =>
+                match ch s i with
+                | None => go s [LTimeout i; LUnregister i]
+                | Some _ => None             (* the answer was there well before the deadline *)
+                end
+            | CInit, Some OExpired =>        (* the server never saw the query: written to a dead connection *)
+                match go s [LRegister i; LPick i] with
+                | Some s1 =>
+                    match picked_conn (pc s1 i) with
+                    | Some k => if broken s1 k then go s1 [LSendOk i; LTimeout i; LUnregister i] else None
+                    | None => None
+                    end
+                | None => None
+                end
+            | CInit, Some OErr => go s [LRegister i; LPick i; LSendFail i; LUnregister i]
+            | _, _ => None
+            end
+        | _ => None
+        end
+      else if is "drop" then
+        match args with
+        | SN k :: _ => step nconn qid s (LDrop (small k))
+        | _ => None
+        end
+      else if is "up" then
+        match args with
+        | [SN k] => go s [LReconnectEnter (small k); LReconnectDone (small k)]
+        | _ => None
+        end
+      else if is "reg" then
+        match args with
+        | [SN n] => if N.eqb (N.of_nat (List.length (reg s))) n then Some s else None
+        | _ => None
+        end
+      else
+        match emission nm args with
+        | Some (k, p) => go s [LEmit k p; LDeliver k]
+        | None => None
+        end
+  | _ => None
+  end.
+
+Fixpoint events (nconn : nat) (s : state) (es : list sx) (idx : nat) : sx :=
+  match es with
+  | [] => SA "accept"
+  | e :: t => match event nconn s e with
+              | Some s' => events nconn s' t (S idx)
+              | None => SL [SA "reject"; sx_nat idx]
+              end
+  end.
+
+(* (nconn (action ...) (observed event ...)) -> 'accept | ('reject index-of-event) *)
+Definition run_seq (a : sx) : sx :=
+  match a with
+  | SL [SN nc; _; SL es] => events (small nc) init_state es 0
+  | _ => sx_err "seq"
   end.
 
 Definition run (name : string) (a : sx) : sx :=
-  if String.eqb name "c12.script" then run_script a else sx_err "unknown case kind".
+  if String.eqb name "c12.script" then run_script a
+  else if String.eqb name "c12.race" then run_race a
+  else if String.eqb name "c12.seq" then run_seq a
+  else sx_err "unknown case kind".
